@@ -256,6 +256,88 @@ func witnessParked(c *core.Ctx) {
 	}
 }
 
+// bigDictCase: MORE than 32767 new distinct values of one tag key between two metadata flushes, so
+// that indexKVStore.Flush's TrieBucketBuilder (block size math.MaxInt16) splits the bucket into several
+// trie blocks; a second batch of the same size and a compaction of the two buckets (TrieBucket.Write:
+// merged tries re-split at 65535 keys). The answer must not depend on how the sorted values are cut
+// into blocks: filters on the lexicographically first / last values and on the values around every
+// block boundary, like-prefix, in-list, negations and a regexp are checked against brute force while
+// the values are in memory, flushed, after a reopen, and compacted. Implementation + oracle only (the
+// list model would need O(n²) steps; its dictionary abstracts the block split, see blocks_cover).
+func bigDictCase(c *core.Ctx, n int, second bool) {
+	d, err := newDBT(c)
+	if err != nil {
+		c.Fail("harness-env", err.Error())
+		return
+	}
+	defer d.close()
+	d.silent = true
+	uid := func(i int) string { return fmt.Sprintf("u%06d", i) }
+	probes := func(lo, hi int, state string) {
+		last := hi - 1
+		var conds []stmt.Expr
+		pick := []int{lo, lo + 1, last, last - 1}
+		for _, b := range []int{32766, 32767, 32768, 65534, 65535, 65536} {
+			if lo+b < hi {
+				pick = append(pick, lo+b)
+			}
+			if b < hi {
+				pick = append(pick, b)
+			}
+		}
+		for _, i := range pick {
+			if i >= 0 && i < hi {
+				conds = append(conds, &stmt.EqualsExpr{Key: "uid", Value: uid(i)})
+			}
+		}
+		conds = append(conds,
+			&stmt.NotExpr{Expr: &stmt.EqualsExpr{Key: "uid", Value: uid(last)}},
+			&stmt.LikeExpr{Key: "uid", Value: uid(last)[:6] + "*"},
+			&stmt.LikeExpr{Key: "uid", Value: uid(lo)[:5] + "*"},
+			&stmt.LikeExpr{Key: "uid", Value: "*" + uid(last)[3:]},
+			&stmt.NotExpr{Expr: &stmt.LikeExpr{Key: "uid", Value: uid(last)[:4] + "*"}},
+			&stmt.InExpr{Key: "uid", Values: []string{uid(lo), uid(last), uid((lo + hi) / 2), "nope"}},
+			&stmt.NotExpr{Expr: &stmt.InExpr{Key: "uid", Values: []string{uid(last), uid(lo)}}},
+			&stmt.RegexExpr{Key: "uid", Regexp: "^" + uid(last)[:6]},
+			&stmt.BinaryExpr{Operator: stmt.AND, Left: &stmt.EqualsExpr{Key: "g", Value: "v3"},
+				Right: &stmt.LikeExpr{Key: "uid", Value: uid(last)[:5] + "*"}},
+		)
+		for _, cond := range conds {
+			d.query("big", cond, nil, "tree")
+		}
+		d.query("big", &stmt.EqualsExpr{Key: "uid", Value: uid(last)}, []string{"uid", "g"}, "tree")
+		c.Note(fmt.Sprintf("big dictionary: %d values of one tag key, %d probes checked against brute force (%s)", hi, len(conds)+1, state))
+	}
+	write := func(lo, hi int) {
+		for i := lo; i < hi; i++ {
+			d.write("big", map[string]string{"uid": uid(i), "g": fmt.Sprintf("v%d", i%7)})
+		}
+	}
+	reopen := func() {
+		if err := d.e.reopen(); err != nil {
+			c.Fail("harness-env", "reopen: "+err.Error())
+		}
+	}
+	write(0, n)
+	probes(0, n, "memory")
+	flushAll(d)
+	probes(0, n, "flushed")
+	reopen()
+	probes(0, n, "reopened")
+	if second {
+		write(n, 2*n)
+		flushAll(d)
+		probes(0, 2*n, "second batch flushed")
+		d.place("compact-meta")
+		d.place("compact-index")
+		probes(0, 2*n, "compacted")
+		reopen()
+		probes(0, 2*n, "compacted + reopened")
+	}
+	d.silent = false
+	c.Op("reset", "ok")
+}
+
 // ---------------------------------------------------------------- forward reader / merger on raw buffers
 
 // capture is a kv.Flusher + table.StreamWriter that keeps the committed values in memory.
